@@ -15,18 +15,7 @@
    C08's contract, is what C07 relies on -, it never changes the value, and it is the
    identity on JSON numbers.  The same automaton is the source of the number lexemes that
    are handed to the real minifier (dump of lex/st). *)
-EXTENDS NumGen, JsonDoc
-
-Repair(t) == IF t[1] = 46 THEN <<48>> \o t
-             ELSE IF Len(t) > 1 /\ t[1] = 45 /\ t[2] = 46 THEN <<45, 48>> \o SubSeq(t, 2, Len(t))
-             ELSE t
-
-HasDot(t) == \E i \in 1..Len(t) : t[i] = 46
-NormalForm(t) ==
-  LET p == Parts(t) IN
-  /\ t[1] # 43
-  /\ Len(p.ip) <= 1 \/ p.ip[1] # 0
-  /\ HasDot(t) => p.fp # <<>>
+EXTENDS NumGen, JsonNumFn     \* Repair, NormalForm: JsonNumFn (shared with the trace specification)
 
 IsLexeme == st \in Accepting
 RepairOK == IsLexeme => /\ IsJsonNumber(Repair(lex)) = NormalForm(lex)
